@@ -16,7 +16,7 @@ class PropBase:
     def run_code(self, case):
         raise NotImplementedError
 
-    def model_requests(self, case):
+    def model_requests(self, case, code_out):
         return []
 
     def model_result(self, case, replies):
